@@ -315,6 +315,7 @@ void runSer(const Op& op, Transcript& t) {
     if (m != len)
       violate(cls + ":measure", "measure says " + std::to_string(m) + ", the text has " + std::to_string(len) + " bytes");
     t.s(T);
+    sketch("states", hashStr(T));
 
     // 2. the text denotes the document (the pure clause: sampled, not the target)
     if (f == MsgPack) {
